@@ -7,7 +7,7 @@ import os
 import sys
 import traceback
 
-sys.path.insert(0, "/verif")
+sys.path.insert(0, os.path.dirname(os.path.dirname(os.path.abspath(__file__))))
 from lib import vlib  # noqa: E402
 
 
